@@ -157,8 +157,8 @@ Theorem C12_text_prefix_refuted :
 Proof. apply mis_sorted_by_computation; vm_compute; reflexivity. Qed.
 Print Assumptions C12_text_prefix_refuted.
 
-(* repeated ORDER BY keys: ORDER BY ?a, ?b, ?a is rebuilt from a map: for the iteration order [b; a] the result is
-   sorted by ?b first.  ([rev] is one of the permutations Go's map iteration may produce.) *)
+(* repeated ORDER BY keys (code as found): ORDER BY ?a, ?b, ?a is rebuilt from a map: for the iteration order [b; a]
+   the result is sorted by ?b first.  ([rev] is one of the permutations Go's map iteration may produce.) *)
 Theorem C12_repeated_keys_refuted :
   exists keys rows cfg out,
     order_by_checker (@rev skey) [1%N; 2%N] keys = inr cfg /\ Permutation cfg [mkKey 1%N false; mkKey 2%N false] /\
@@ -171,6 +171,13 @@ Proof.
   intro S. apply spec_sorted_b_iff in S. vm_compute in S. discriminate.
 Qed.
 Print Assumptions C12_repeated_keys_refuted.
+
+(* after repair 67e0e70 the configuration keeps the first occurrence of each key in written order ([perm] is the
+   identity), and that configuration compares any two rows exactly as the written key list does *)
+Theorem C12_repeated_keys_fixed : forall outs keys cfg,
+  order_by_checker (fun l => l) outs keys = inr cfg -> forall a b, key_cmp cfg a b = key_cmp keys a b.
+Proof. exact order_by_checker_same_order. Qed.
+Print Assumptions C12_repeated_keys_fixed.
 
 (* LIMIT push-down: single full-scan clause, ORDER BY ?o DESC LIMIT 1 returns the row the DRIVER lists first, not the
    largest *)
